@@ -18,13 +18,14 @@ const maxDepth = 64
 // oracle 1: equality
 
 type eqResult struct {
-	diffs        []eqDiff // real differences (first few)
-	nilEmptyDiff int      // nil-vs-empty slice/map differences: counted, not judged
+	diffs        []eqDiff // differences (first few)
+	nilEmptyDiff int      // of which nil-vs-empty slice/map differences (judged: class nil-vs-empty)
 }
 
 type eqDiff struct {
-	pt   pathT
-	what string
+	pt    pathT
+	what  string
+	class string // "" = not-equal
 }
 
 type walker struct {
@@ -36,40 +37,40 @@ func (w *walker) equal(a, b reflect.Value, pt pathT, res *eqResult, depth int) {
 		return
 	}
 	if a.IsValid() != b.IsValid() {
-		res.diffs = append(res.diffs, eqDiff{pt, "one side invalid"})
+		res.diffs = append(res.diffs, eqDiff{pt: pt, what: "one side invalid"})
 		return
 	}
 	if !a.IsValid() {
 		return
 	}
 	if a.Type() != b.Type() {
-		res.diffs = append(res.diffs, eqDiff{pt, fmt.Sprintf("type %s vs %s", a.Type(), b.Type())})
+		res.diffs = append(res.diffs, eqDiff{pt: pt, what: fmt.Sprintf("type %s vs %s", a.Type(), b.Type())})
 		return
 	}
 	switch a.Kind() {
 	case reflect.Bool:
 		if a.Bool() != b.Bool() {
-			res.diffs = append(res.diffs, eqDiff{pt, fmt.Sprintf("%v vs %v", a.Bool(), b.Bool())})
+			res.diffs = append(res.diffs, eqDiff{pt: pt, what: fmt.Sprintf("%v vs %v", a.Bool(), b.Bool())})
 		}
 	case reflect.Int, reflect.Int8, reflect.Int16, reflect.Int32, reflect.Int64:
 		if a.Int() != b.Int() {
-			res.diffs = append(res.diffs, eqDiff{pt, fmt.Sprintf("%d vs %d", a.Int(), b.Int())})
+			res.diffs = append(res.diffs, eqDiff{pt: pt, what: fmt.Sprintf("%d vs %d", a.Int(), b.Int())})
 		}
 	case reflect.Uint, reflect.Uint8, reflect.Uint16, reflect.Uint32, reflect.Uint64, reflect.Uintptr:
 		if a.Uint() != b.Uint() {
-			res.diffs = append(res.diffs, eqDiff{pt, fmt.Sprintf("%d vs %d", a.Uint(), b.Uint())})
+			res.diffs = append(res.diffs, eqDiff{pt: pt, what: fmt.Sprintf("%d vs %d", a.Uint(), b.Uint())})
 		}
 	case reflect.Float32, reflect.Float64:
 		if a.Float() != b.Float() {
-			res.diffs = append(res.diffs, eqDiff{pt, fmt.Sprintf("%v vs %v", a.Float(), b.Float())})
+			res.diffs = append(res.diffs, eqDiff{pt: pt, what: fmt.Sprintf("%v vs %v", a.Float(), b.Float())})
 		}
 	case reflect.String:
 		if a.String() != b.String() {
-			res.diffs = append(res.diffs, eqDiff{pt, fmt.Sprintf("%q vs %q", a.String(), b.String())})
+			res.diffs = append(res.diffs, eqDiff{pt: pt, what: fmt.Sprintf("%q vs %q", a.String(), b.String())})
 		}
 	case reflect.Ptr:
 		if a.IsNil() != b.IsNil() {
-			res.diffs = append(res.diffs, eqDiff{pt, fmt.Sprintf("nil=%v vs nil=%v", a.IsNil(), b.IsNil())})
+			res.diffs = append(res.diffs, eqDiff{pt: pt, what: fmt.Sprintf("nil=%v vs nil=%v", a.IsNil(), b.IsNil())})
 			return
 		}
 		if !a.IsNil() {
@@ -77,24 +78,27 @@ func (w *walker) equal(a, b reflect.Value, pt pathT, res *eqResult, depth int) {
 		}
 	case reflect.Interface:
 		if a.IsNil() != b.IsNil() {
-			res.diffs = append(res.diffs, eqDiff{pt, fmt.Sprintf("nil=%v vs nil=%v", a.IsNil(), b.IsNil())})
+			res.diffs = append(res.diffs, eqDiff{pt: pt, what: fmt.Sprintf("nil=%v vs nil=%v", a.IsNil(), b.IsNil())})
 			return
 		}
 		if !a.IsNil() {
 			ae, be := a.Elem(), b.Elem()
 			if ae.Type() != be.Type() {
-				res.diffs = append(res.diffs, eqDiff{pt, fmt.Sprintf("dynamic type %s vs %s", ae.Type(), be.Type())})
+				res.diffs = append(res.diffs, eqDiff{pt: pt, what: fmt.Sprintf("dynamic type %s vs %s", ae.Type(), be.Type())})
 				return
 			}
 			w.equal(ae, be, pt.iface(dynName(ae.Type())), res, depth+1)
 		}
 	case reflect.Slice:
 		if a.Len() != b.Len() {
-			res.diffs = append(res.diffs, eqDiff{pt, fmt.Sprintf("len %d vs %d", a.Len(), b.Len())})
+			res.diffs = append(res.diffs, eqDiff{pt: pt, what: fmt.Sprintf("len %d vs %d", a.Len(), b.Len())})
 			return
 		}
 		if a.IsNil() != b.IsNil() {
-			res.nilEmptyDiff++ // nil vs empty: "equal" does not demand more
+			// nil and empty are different values for this library (NULL vs empty [bytes] on the wire)
+			res.nilEmptyDiff++
+			res.diffs = append(res.diffs, eqDiff{pt: pt, what: fmt.Sprintf("slice nil=%v vs nil=%v (both len 0)", a.IsNil(), b.IsNil()), class: "nil-vs-empty"})
+			return
 		}
 		for i := 0; i < a.Len(); i++ {
 			w.equal(a.Index(i), b.Index(i), pt.index(i), res, depth+1)
@@ -105,16 +109,18 @@ func (w *walker) equal(a, b reflect.Value, pt pathT, res *eqResult, depth int) {
 		}
 	case reflect.Map:
 		if a.Len() != b.Len() {
-			res.diffs = append(res.diffs, eqDiff{pt, fmt.Sprintf("map len %d vs %d", a.Len(), b.Len())})
+			res.diffs = append(res.diffs, eqDiff{pt: pt, what: fmt.Sprintf("map len %d vs %d", a.Len(), b.Len())})
 			return
 		}
 		if a.IsNil() != b.IsNil() {
 			res.nilEmptyDiff++
+			res.diffs = append(res.diffs, eqDiff{pt: pt, what: fmt.Sprintf("map nil=%v vs nil=%v (both len 0)", a.IsNil(), b.IsNil()), class: "nil-vs-empty"})
+			return
 		}
 		for _, k := range sortedKeys(a) {
 			bv := b.MapIndex(k)
 			if !bv.IsValid() {
-				res.diffs = append(res.diffs, eqDiff{pt.mapval(fmt.Sprint(k)), "key missing in copy"})
+				res.diffs = append(res.diffs, eqDiff{pt: pt.mapval(fmt.Sprint(k)), what: "key missing in copy"})
 				continue
 			}
 			w.equal(a.MapIndex(k), bv, pt.mapval(fmt.Sprint(k)), res, depth+1)
@@ -125,7 +131,7 @@ func (w *walker) equal(a, b reflect.Value, pt pathT, res *eqResult, depth int) {
 			w.equal(a.Field(i), b.Field(i), pt.field(a.Type().Field(i).Name), res, depth+1)
 		}
 	default:
-		res.diffs = append(res.diffs, eqDiff{pt, "unsupported kind " + a.Kind().String()})
+		res.diffs = append(res.diffs, eqDiff{pt: pt, what: "unsupported kind " + a.Kind().String()})
 	}
 }
 
